@@ -18,7 +18,7 @@
    payload (known finding K2). *)
 From Coq Require Import List NArith Bool String.
 Import ListNotations.
-From Indi Require Import Base.Sx Msg.Equality Driver.Model Driver.Props Client.Model Client.Props Client.Update System.Converge System.Ops.
+From Indi Require Import Base.Sx Msg.Equality Driver.Model Driver.Props Client.Model Client.Props Client.Update System.Model System.Converge System.Ops System.Deliver.
 
 Theorem a_definition_brings_the_entry_in_sync mi d g v :
   vec_on g v = true ->
@@ -89,7 +89,8 @@ Print Assumptions the_handshake_brings_a_fresh_mirror_in_sync.
 
 Theorem every_operation_keeps_the_mirror_in_sync d o mi :
   dev_ok d -> synced mi d -> op_typed d o ->
-  dev_ok (fst (step d o)) /\ synced (feed mi (pubs (snd (step d o)))) (fst (step d o)) /\ d_name (fst (step d o)) = d_name d.
+  dev_ok (fst (step d o)) /\ synced (feed mi (pubs (snd (step d o)))) (fst (step d o)) /\ d_name (fst (step d o)) = d_name d /\
+  Forall (fun m => exists vn, about (d_name d) vn m) (pubs (snd (step d o))).
 Proof. exact (step_synced d o mi). Qed.
 Print Assumptions every_operation_keeps_the_mirror_in_sync.
 
@@ -109,3 +110,21 @@ Theorem what_in_sync_means mi d :
     end.
 Proof. exact (synced_means mi d). Qed.
 Print Assumptions what_in_sync_means.
+
+(* ---------- delivery in the composed system model ---------- *)
+(* one driver-side operation: the connected network client receives exactly what the driver published - each
+   message once, ordinary messages on the control connection in order, BLOB updates on the BLOB connection in
+   order, each after the wire - sends nothing back, and the system is quiet again *)
+Theorem what_a_driver_publishes_is_delivered s c dn e d o :
+  one_client s c dn -> cl_in_ctl c = [] -> cl_in_blob c = [] ->
+  dget cd_name dn (cl_mirror c) <> None ->
+  find_dev s e = Some d -> d_name d = dn -> e <> cl_ctl c -> e <> cl_blob c ->
+  Forall (fun m => exists vn, about dn vn m) (pubs (snd (step d o))) ->
+  exists c',
+    sy_cls (sstep s (SDrv e o)) = [c'] /\
+    cl_mirror c' = feed (cl_mirror c) (delivered_stream (pubs (snd (step d o)))) /\
+    cl_in_ctl c' = [] /\ cl_in_blob c' = [] /\
+    find_dev (sstep s (SDrv e o)) e = Some (fst (step d o)) /\
+    sy_r (sstep s (SDrv e o)) = sy_r s.
+Proof. exact (driver_operation_is_delivered s c dn e d o). Qed.
+Print Assumptions what_a_driver_publishes_is_delivered.
